@@ -301,7 +301,12 @@ def _cond(case):
         J = None
         fc = _forces(es, ns, params) or coords
         if which in ("spline", "chain-trend-spline", "vector-of", "chain-trend-trend-spline"):
-            J = vd.Spline(mindist=params.get("mindist", 0)).jacobian(coords, fc)
+            # the conditioning is that of the DOCUMENTED system (kernel r^2 (ln r - 1) of the distance plus mindist), assembled here by hand: a kernel
+            # that makes a well-posed problem singular is then not excused by the singularity it created
+            r_ = np.hypot(coords[0].ravel()[:, None] - np.asarray(fc[0], dtype=float).ravel()[None, :],
+                          coords[1].ravel()[:, None] - np.asarray(fc[1], dtype=float).ravel()[None, :]) + params.get("mindist", 0)
+            with np.errstate(divide="ignore", invalid="ignore"):
+                J = np.where(r_ > 0, r_ ** 2 * (np.log(np.where(r_ > 0, r_, 1.0)) - 1.0), 0.0)
         if which == "vector":
             J = vd.VectorSpline2D(poisson=params["poisson"], mindist=params["mindist"]).jacobian(coords, fc)
         if J is not None:
